@@ -9,7 +9,7 @@
    has ADD only on absent ids, UPDATE/REPLACE/REMOVE only on present ids, each with
    old = the previous new.  v0 is the view both sides start from (the seed). *)
 From SC Require Import Base.Prelude Excess.Change Excess.MergeExcess Excess.DropExcess
-  Excess.MergeProofs Excess.DropProofs Excess.C09Judge Excess.TableProofs.
+  Excess.MergeProofs Excess.DropProofs Excess.C09Judge Excess.TableProofs Excess.JudgeProofs.
 From SC Require Gen.MergeTable.
 
 (* the model's kind algebra IS the code's: every row of the table generated from the working tree *)
@@ -132,6 +132,23 @@ Theorem C09_table_rows_preserve_fold :
   forallb (fun r => let '(a, b, out, send) := r in row_law a b out send) Gen.MergeTable.table = true.
 Proof. exact table_rows_preserve_fold. Qed.
 Print Assumptions C09_table_rows_preserve_fold.
+
+(* the predicate the check evaluates on every observation (C09Judge.C09_ok: two folded views, a
+   merge-free bound on what can be pending) holds of every model-conforming observation inside
+   the guard: it is implied by the theorems above, for all sequences / rows *)
+Theorem C09_judge_sound : forall c,
+  agrees c = true -> C09_guard c = true ->
+  match c with KMerge _ _ | KDrop _ _ | KRow _ _ _ _ => C09_ok c = true | _ => True end.
+Proof. exact judge_sound. Qed.
+Print Assumptions C09_judge_sound.
+
+Theorem C09_model_passes_oracle : forall acts,
+  no_close acts = true -> valid_script (sent_of acts) empty_view = true ->
+  merge_ok acts (snd (m_run m_init acts)) = true.
+Proof.
+  intros acts H1 H2. apply judge_sound_merge. unfold merge_guard. rewrite H1, H2. reflexivity.
+Qed.
+Print Assumptions C09_model_passes_oracle.
 
 (* Not a theorem: the wall-clock parts of the statement ("complete without waiting" as a latency,
    the five second send timeout of Value.set, writers waiting under backpressure).  They are
